@@ -48,6 +48,11 @@ func (e *Engine) unop(instr *ssa.UnOp, x value) value {
 		if p == nil {
 			e.rtPanic("invalid memory address or nil pointer dereference")
 		}
+		if e.race != nil && e.race.on {
+			if al, isAlloc := instr.X.(*ssa.Alloc); !isAlloc || al.Heap {
+				e.raceCell(p, false)
+			}
+		}
 		return copyVal(*p)
 	case token.NOT:
 		switch x := x.(type) {
@@ -750,7 +755,21 @@ func (e *Engine) rangeIter(x value, t types.Type) iter {
 			return &mapIter{}
 		}
 		e.raceAccess(x, false)
-		return &mapIter{m: x, k: append([]value{}, x.keys...), v: append([]value{}, x.vals...)}
+		ks, vs := append([]value{}, x.keys...), append([]value{}, x.vals...)
+		if e.sh.permuteMaps && !e.permOff && len(ks) >= 2 && len(ks) <= 4 {
+			// Go's map iteration order is unspecified: explore the orders (Fisher-Yates with forked choices)
+			for i := 0; i < len(ks)-1; i++ {
+				if e.sh.mapPermBudget > 0 && e.permForks >= e.sh.mapPermBudget {
+					break
+				}
+				e.permForks++
+				s := e.freshRange("mapiter", 64, 0, uint64(len(ks)-1-i))
+				j := i + int(e.concretize(s.t))
+				ks[i], ks[j] = ks[j], ks[i]
+				vs[i], vs[j] = vs[j], vs[i]
+			}
+		}
+		return &mapIter{m: x, k: ks, v: vs}
 	case string, *symstr:
 		return &strIter{e: e, b: strBytes(x)}
 	}
